@@ -1,12 +1,18 @@
-(* C12 (Colang 2.x) - model of expansion.expand_elements for a fragment, as far as closedness is
-   concerned: if/else, while (break/continue), match or-/and-groups of events, when/or when/else
-   whose cases are single events.  Every construct is named by its path in the source tree and
-   derives its labels / scope name / fork uids from that path (the real code draws them from
-   new_var_uuid(); only their equality pattern matters and that is what the correspondence
-   compares, after renaming by first occurrence).  The when-expansion is the REPAIRED one
-   (fixes/C12-when-else-*.patch: else group emitted once, EndScope on the else path).
-   Not modelled (validated per program by the checker instead): start/await/activate, groups that
-   contain flows or actions, when-cases that are groups, elif.  Definitions only. *)
+(* C12 (Colang 2.x) - model of expansion.expand_elements, as far as closedness is concerned, for
+     if / elif / else, while (break / continue),
+     match on events in disjunctive normal form (or of and-groups),
+     start / await of flows and actions in disjunctive normal form (the real code normalises a
+       nested and/or group with normalize_element_groups; the source tree carries the DNF),
+     activate of flows (and-groups),
+     when / or when / else whose case triggers are an event, flow or action or an and-group of them.
+   Every construct is named by its path in the source tree (a list of numbers) and derives its
+   labels / scope name / fork uids from that path (the real code draws them from new_var_uuid();
+   only their equality pattern matters and that is what the correspondence compares, after
+   renaming by first occurrence).  The when-expansion is the REPAIRED one (else group emitted once,
+   EndScope on the else path).
+   Not modelled (validated per program by the checker closedb instead): when-cases whose trigger
+   contains an `or`, send / stop / deactivate on groups, references (`as $ref`) and return-value
+   assignments on group members (extra Assignment elements only).  Definitions only. *)
 From Coq Require Import List String Ascii Bool Arith.
 From NG Require Import V2.ClosedAst V2.Closed.
 Import ListNotations.
@@ -14,62 +20,165 @@ Open Scope string_scope.
 Open Scope list_scope.
 Infix "^^" := String.append (at level 60, right associativity).
 
+Inductive atom := AFlow | AAction.         (* what a start / await refers to *)
+Inductive member := MEvent | MFlow | MAction.   (* member of the trigger of a when-case *)
+
 Inductive stmt :=
 | SPlain                                   (* assignment, send of an internal event, log ... *)
 | SBlock                                   (* match of one event / send of an action event *)
 | SBreak | SContinue | SReturn | SAbort
-| SIf (th el : list stmt)                  (* el = [] : no else branch *)
+| SIf (th el : list stmt)                  (* el = [] : no else branch; elif = an If as the else branch *)
 | SWhile (body : list stmt)
-| SMatchOr (n : nat)                       (* match E1 or ... or En  (n >= 2) *)
-| SMatchAnd (n : nat)                      (* match E1 and ... and En (n >= 2) *)
-| SWhen (cases : list (list stmt)) (els : option (list stmt)).
+| SMatch (ks : list nat)                   (* match: or over and-groups of ks_i >= 1 events *)
+| SStart (gs : list (list atom))           (* start: or over and-groups *)
+| SAwait (gs : list (list atom))           (* await (or a bare flow call): or over and-groups *)
+| SActivate (n : nat)                      (* activate f1 and ... and fn *)
+| SWhen (cases : list (list member * list stmt)) (els : option (list stmt)).
+                                           (* case trigger: an and-group of events / flows / actions *)
 
-(* i-th child: a prefix-free unary code *)
+(* ---- names.  A construct is identified by its path in the source tree (list nat); every label,
+   scope name and fork uid is the path extended by exactly three numbers (kind, index, sub-kind),
+   written as a string with a prefix-free unary code (injective, see ExpandTyping_proofs.enc_inj).
+   The real code draws the names from new_var_uuid(). ---- *)
 Fixpoint uname (n : nat) : string :=
   match n with O => "u" | S k => String "x"%char (uname k) end.
 
+Fixpoint enc (pi : list nat) : string :=
+  match pi with [] => "" | n :: r => uname n ^^ enc r end.
+
+Definition spath := list nat.
+Definition nm (p : spath) (a b c : nat) : string := enc (p ++ [a; b; c]).
+Arguments nm : simpl never.
+
+(* if *)
+Definition if_E (p : spath) := nm p 10 0 0.      (* else body *)
+Definition if_D (p : spath) := nm p 10 0 1.      (* end *)
+(* while *)
+Definition wh_B (p : spath) := nm p 12 0 0.      (* begin = continue target *)
+Definition wh_D (p : spath) := nm p 12 0 1.      (* end = break target *)
+(* and-group of matches (all must match) *)
+Definition gr_K (p : spath) := nm p 14 0 0.      (* fork uid *)
+Definition gr_F (p : spath) := nm p 14 0 1.      (* failure label *)
+Definition gr_N (p : spath) := nm p 14 0 2.      (* end label *)
+Definition gr_G (p : spath) (i : nat) := nm p 14 i 3.   (* label of event i *)
+(* or-structure (one branch must succeed); sc = true: the await variant, which opens a scope *)
+Definition or_a (sc : bool) : nat := if sc then 17 else 16.
+Definition or_K (sc : bool) (p : spath) := nm p (or_a sc) 0 0.      (* fork uid *)
+Definition or_F (sc : bool) (p : spath) := nm p (or_a sc) 0 1.      (* failure label *)
+Definition or_N (sc : bool) (p : spath) := nm p (or_a sc) 0 2.      (* end label *)
+Definition or_S (sc : bool) (p : spath) := nm p (or_a sc) 0 4.      (* scope *)
+Definition or_G (sc : bool) (p : spath) (i : nat) := nm p (or_a sc) i 3.   (* label of branch i *)
+(* when *)
+Definition wn_S (p : spath) := nm p 20 0 0.      (* scope *)
+Definition wn_K (p : spath) := nm p 20 0 1.      (* cases fork uid *)
+Definition wn_E (p : spath) := nm p 20 0 2.      (* else label *)
+Definition wn_T (p : spath) := nm p 20 0 3.      (* else statement label *)
+Definition wn_D (p : spath) := nm p 20 0 4.      (* end label *)
+(* case i of a when *)
+Definition cs_I (p : spath) (i : nat) := nm p 30 i 0.   (* init label *)
+Definition cs_F (p : spath) (i : nat) := nm p 30 i 1.   (* failure label *)
+Definition cs_K (p : spath) (i : nat) := nm p 30 i 2.   (* groups fork uid *)
+Definition cs_G (p : spath) (i : nat) := nm p 30 i 3.   (* group label *)
+Definition cs_C (p : spath) (i : nat) := nm p 30 i 4.   (* case label *)
+
 Definition cb_t := option (string * string).   (* (continue label, break label) of the enclosing loop *)
 
-Definition group_labels (p : string) (n : nat) : list string := map (fun i => p ^^ "G" ^^ uname i) (seq 0 n).
+(* ---- starting a flow / an action ---- *)
+Definition start_atom (a : atom) : list elem :=
+  match a with
+  | AFlow => [EPlain "Assignment"; EPlain "SpecOp"; EBlock; EPlain "Assignment"]
+      (* $uid = ..; send StartFlow; match FlowStarted (internal); $ref = $event.flow *)
+  | AAction => [EPlain "SpecOp"; EBlock]
+      (* _new_action_instance; send Start...Action (an action event: the head stops) *)
+  end.
+Definition starts (g : list atom) : list elem := flat_map start_atom g.
 
-Definition or_group (p : string) (n : nat) : list elem :=
-  let fk := p ^^ "K" in let fail := p ^^ "F" in let en := p ^^ "D" in
+(* ---- and-group of n matches at path p ---- *)
+Definition group_labels (p : spath) (n : nat) : list string := map (gr_G p) (seq 0 n).
+
+Definition group_body (en : string) (gs : list string) : list elem :=
+  flat_map (fun g => [ELabel g; EBlock; EGoto en false]) gs.
+
+Definition and_group (p : spath) (n : nat) : list elem :=
   let gs := group_labels p n in
-  [ECatch (Some fail); EFork fk gs]
-    ++ flat_map (fun g => [ELabel g; EBlock; EGoto en false]) gs
-    ++ [ELabel fail; EWait; EMerge fk; ECatch None; EAbort; ELabel en; EMerge fk; ECatch None].
+  [ECatch (Some (gr_F p)); EFork (gr_K p) gs]
+    ++ group_body (gr_N p) gs
+    ++ [ELabel (gr_F p); EMerge (gr_K p); ECatch None; EAbort; ELabel (gr_N p); EWait; EMerge (gr_K p); ECatch None].
 
-Definition and_group (p : string) (n : nat) : list elem :=
-  let fk := p ^^ "K" in let fail := p ^^ "F" in let en := p ^^ "D" in
-  let gs := group_labels p n in
-  [ECatch (Some fail); EFork fk gs]
-    ++ flat_map (fun g => [ELabel g; EBlock; EGoto en false]) gs
-    ++ [ELabel fail; EMerge fk; ECatch None; EAbort; ELabel en; EWait; EMerge fk; ECatch None].
+(* a match on k events that must all arrive: one blocking element, or an and-group named by the
+   sub-path [tag; i] (tag 6: branch i of a match/start or-structure, 7: of an await or-structure,
+   8: not inside an or-structure, 9: trigger of case i of a when) *)
+Definition match_all (p : spath) (tag i k : nat) : list elem :=
+  if (k <=? 1)%nat then [EBlock] else and_group (p ++ [tag; i]) k.
 
-(* path of the i-th case of the when statement at p *)
-Definition casep (p : string) (i : nat) : string := p ^^ "c" ^^ uname i.
-Arguments casep : simpl never.
+(* ---- or-structure over already expanded branch bodies ---- *)
+Fixpoint or_branches (sc : bool) (p : spath) (i : nat) (bodies : list (list elem)) : list elem :=
+  match bodies with
+  | [] => []
+  | b :: r => ELabel (or_G sc p i) :: b ++ EGoto (or_N sc p) false :: or_branches sc p (S i) r
+  end.
+
+Definition or_tail (sc : bool) (p : spath) : list elem :=
+  if sc
+  then [ELabel (or_F sc p); EWait; ECatch None; EEnd (or_S sc p); EAbort;
+        ELabel (or_N sc p); EMerge (or_K sc p); ECatch None; EEnd (or_S sc p)]
+  else [ELabel (or_F sc p); EWait; EMerge (or_K sc p); ECatch None; EAbort;
+        ELabel (or_N sc p); EMerge (or_K sc p); ECatch None].
+
+Definition or_struct (sc : bool) (p : spath) (bodies : list (list elem)) : list elem :=
+  (if sc then [EBegin (or_S sc p)] else [])
+    ++ [ECatch (Some (or_F sc p)); EFork (or_K sc p) (map (or_G sc p) (seq 0 (List.length bodies)))]
+    ++ or_branches sc p 0 bodies ++ or_tail sc p.
+
+Fixpoint mapi_from {A B} (f : nat -> A -> B) (i : nat) (l : list A) : list B :=
+  match l with [] => [] | x :: r => f i x :: mapi_from f (S i) r end.
+
+Definition x_match (p : spath) (ks : list nat) : list elem :=
+  match ks with
+  | [k] => match_all p 8 0 k
+  | _ => or_struct false p (mapi_from (fun i k => match_all p 6 i k) 0 ks)
+  end.
+
+Definition x_start (p : spath) (gs : list (list atom)) : list elem :=
+  match gs with
+  | [g] => starts g
+  | _ => or_struct false p (map starts gs)
+  end.
+
+Definition x_await (p : spath) (gs : list (list atom)) : list elem :=
+  match gs with
+  | [g] => starts g ++ match_all p 8 0 (List.length g)
+  | _ => or_struct true p (mapi_from (fun i g => starts g ++ match_all p 7 i (List.length g)) 0 gs)
+  end.
+
+Fixpoint x_activate (n : nat) : list elem :=
+  match n with O => [] | S m => [EPlain "Assignment"; EPlain "SpecOp"; EBlock] ++ x_activate m end.
+
+(* ---- when ---- *)
+Definition member_start (m : member) : list elem :=
+  match m with MEvent => [] | MFlow => start_atom AFlow | MAction => start_atom AAction end.
+Definition case_pre (tr : list member) : list elem := flat_map member_start tr.
 
 (* one case of a when statement; `body` already expanded *)
-Definition when_case (p : string) (i : nat) (body : list elem) : list elem :=
-  let q := casep p i in
-  [ELabel (q ^^ "I"); ECatch (Some (q ^^ "F")); EFork (q ^^ "K") [q ^^ "G"];
-   ELabel (q ^^ "G"); EBlock; EGoto (q ^^ "C") false;
-   ELabel (q ^^ "C"); EMerge (p ^^ "K"); ECatch None; EEnd (p ^^ "S")] ++ body ++
-  [EGoto (p ^^ "D") false; ELabel (q ^^ "F"); EWait; ECatch None; EGoto (p ^^ "E") false].
+Definition when_case (p : spath) (i : nat) (tr : list member) (body : list elem) : list elem :=
+  [ELabel (cs_I p i); ECatch (Some (cs_F p i)); EFork (cs_K p i) [cs_G p i]; ELabel (cs_G p i)]
+  ++ (case_pre tr ++ match_all p 9 i (List.length tr)) ++
+  [EGoto (cs_C p i) false;
+   ELabel (cs_C p i); EMerge (wn_K p); ECatch None; EEnd (wn_S p)] ++ body ++
+  [EGoto (wn_D p) false; ELabel (cs_F p i); EWait; ECatch None; EGoto (wn_E p) false].
 
-Definition when_tail (p : string) (els : option (list elem)) : list elem :=
-  [ELabel (p ^^ "E"); EWait; EEnd (p ^^ "S")] ++
+Definition when_tail (p : spath) (els : option (list elem)) : list elem :=
+  [ELabel (wn_E p); EWait; EEnd (wn_S p)] ++
   match els with
   | None => [EAbort]
-  | Some el => [EGoto (p ^^ "T") false; ELabel (p ^^ "T")] ++ el
-  end ++ [ELabel (p ^^ "D")].
+  | Some el => [EGoto (wn_T p) false; ELabel (wn_T p)] ++ el
+  end ++ [ELabel (wn_D p)].
 
-Fixpoint xstmt (cb : cb_t) (p : string) (s : stmt) {struct s} : list elem :=
-  let xlist := fix xlist (cb : cb_t) (p : string) (i : nat) (ss : list stmt) {struct ss} : list elem :=
+Fixpoint xstmt (cb : cb_t) (p : spath) (s : stmt) {struct s} : list elem :=
+  let xlist := fix xlist (cb : cb_t) (p : spath) (t i : nat) (ss : list stmt) {struct ss} : list elem :=
     match ss with
     | [] => []
-    | s :: r => xstmt cb (p ^^ uname i) s ++ xlist cb p (S i) r
+    | s :: r => xstmt cb (p ++ [t; i]) s ++ xlist cb p t (S i) r
     end in
   match s with
   | SPlain => [EPlain "Assignment"]
@@ -80,38 +189,40 @@ Fixpoint xstmt (cb : cb_t) (p : string) (s : stmt) {struct s} : list elem :=
   | SAbort => [EAbort]
   | SIf th el =>
       match el with
-      | [] => EGoto (p ^^ "D") true :: xlist cb (p ^^ "t") 0 th ++ [ELabel (p ^^ "D")]
-      | _ => EGoto (p ^^ "E") true :: xlist cb (p ^^ "t") 0 th
-             ++ [EGoto (p ^^ "D") false; ELabel (p ^^ "E")] ++ xlist cb (p ^^ "e") 0 el ++ [ELabel (p ^^ "D")]
+      | [] => EGoto (if_D p) true :: xlist cb p 0 0 th ++ [ELabel (if_D p)]
+      | _ => EGoto (if_E p) true :: xlist cb p 0 0 th
+             ++ [EGoto (if_D p) false; ELabel (if_E p)] ++ xlist cb p 1 0 el ++ [ELabel (if_D p)]
       end
   | SWhile body =>
-      ELabel (p ^^ "B") :: EGoto (p ^^ "D") true
-        :: xlist (Some (p ^^ "B", p ^^ "D")) (p ^^ "b") 0 body ++ [EGoto (p ^^ "B") false; ELabel (p ^^ "D")]
-  | SMatchOr n => or_group p n
-  | SMatchAnd n => and_group p n
+      ELabel (wh_B p) :: EGoto (wh_D p) true
+        :: xlist (Some (wh_B p, wh_D p)) p 2 0 body ++ [EGoto (wh_B p) false; ELabel (wh_D p)]
+  | SMatch ks => x_match p ks
+  | SStart gs => x_start p gs
+  | SAwait gs => x_await p gs
+  | SActivate n => x_activate n
   | SWhen cases els =>
-      let xcases := fix xcases (i : nat) (cs : list (list stmt)) {struct cs} : list elem :=
+      let xcases := fix xcases (i : nat) (cs : list (list member * list stmt)) {struct cs} : list elem :=
         match cs with
         | [] => []
-        | body :: r => when_case p i (xlist cb (casep p i ^^ "b") 0 body) ++ xcases (S i) r
+        | (tr, body) :: r => when_case p i tr (xlist cb (p ++ [4; i]) 5 0 body) ++ xcases (S i) r
         end in
-      EBegin (p ^^ "S")
-        :: EFork (p ^^ "K") (map (fun i => casep p i ^^ "I") (seq 0 (List.length cases)))
+      EBegin (wn_S p)
+        :: EFork (wn_K p) (map (cs_I p) (seq 0 (List.length cases)))
         :: xcases 0 cases
-        ++ when_tail p (match els with None => None | Some el => Some (xlist cb (p ^^ "e") 0 el) end)
+        ++ when_tail p (match els with None => None | Some el => Some (xlist cb p 3 0 el) end)
   end.
 
-Fixpoint xlist (cb : cb_t) (p : string) (i : nat) (ss : list stmt) : list elem :=
+Fixpoint xlist (cb : cb_t) (p : spath) (t i : nat) (ss : list stmt) : list elem :=
   match ss with
   | [] => []
-  | s :: r => xstmt cb (p ^^ uname i) s ++ xlist cb p (S i) r
+  | s :: r => xstmt cb (p ++ [t; i]) s ++ xlist cb p t (S i) r
   end.
 
-Definition xcases (cb : cb_t) (p : string) : nat -> list (list stmt) -> list elem :=
-  fix xcases (i : nat) (cs : list (list stmt)) {struct cs} : list elem :=
+Definition xcases (cb : cb_t) (p : spath) : nat -> list (list member * list stmt) -> list elem :=
+  fix xcases (i : nat) (cs : list (list member * list stmt)) {struct cs} : list elem :=
     match cs with
     | [] => []
-    | body :: r => when_case p i (xlist cb (casep p i ^^ "b") 0 body) ++ xcases (S i) r
+    | (tr, body) :: r => when_case p i tr (xlist cb (p ++ [4; i]) 5 0 body) ++ xcases (S i) r
     end.
 
 (* well-formed source: break / continue only inside a loop *)
@@ -123,8 +234,8 @@ Fixpoint wf_loops (inl : bool) (s : stmt) {struct s} : bool :=
   | SIf th el => wl inl th && wl inl el
   | SWhile b => wl true b
   | SWhen cases els =>
-      (fix wc (cs : list (list stmt)) : bool :=
-         match cs with [] => true | c :: r => wl inl c && wc r end) cases
+      (fix wc (cs : list (list member * list stmt)) : bool :=
+         match cs with [] => true | (_, c) :: r => wl inl c && wc r end) cases
       && match els with None => true | Some el => wl inl el end
   | _ => true
   end.
@@ -132,19 +243,22 @@ Fixpoint wf_loops (inl : bool) (s : stmt) {struct s} : bool :=
 Fixpoint wf_list (inl : bool) (ss : list stmt) : bool :=
   match ss with [] => true | s :: r => wf_loops inl s && wf_list inl r end.
 
-Definition wf_cases (inl : bool) : list (list stmt) -> bool :=
-  fix wc (cs : list (list stmt)) : bool :=
-    match cs with [] => true | c :: r => wf_list inl c && wc r end.
+Definition wf_cases (inl : bool) : list (list member * list stmt) -> bool :=
+  fix wc (cs : list (list member * list stmt)) : bool :=
+    match cs with [] => true | (_, c) :: r => wf_list inl c && wc r end.
 
 (* a flow body: the flow-start match is a blocking element in front *)
-Definition expand (ss : list stmt) : list elem := EBlock :: xlist None "" 0 ss.
+Definition expand (ss : list stmt) : list elem := EBlock :: xlist None [] 0 0 ss.
 
 (* ---- sanity: closedness of concrete expansions, by the verified checker ---- *)
 Example ex_expand_closed_1 :
-  closedb (expand [SWhile [SWhen [[SPlain]; [SBreak]] (Some [SContinue; SPlain]); SPlain];
-                   SIf [SMatchOr 2] [SMatchAnd 3]; SBlock]) = true.
+  closedb (expand [SWhile [SWhen [([MEvent], [SPlain]); ([MFlow; MEvent], [SBreak])] (Some [SContinue; SPlain]); SPlain];
+                   SIf [SMatch [1; 1]] [SMatch [3]]; SMatch [2; 1]; SBlock]) = true.
 Proof. vm_compute. reflexivity. Qed.
 
 Example ex_expand_closed_2 :
-  closedb (expand [SWhen [[SWhile [SBreak]]] None; SWhen [[SReturn]; [SAbort]] (Some [SWhile [SContinue]])]) = true.
+  closedb (expand [SWhen [([MEvent], [SWhile [SBreak]])] None;
+                   SAwait [[AFlow; AAction]; [AFlow]]; SStart [[AFlow]; [AAction; AFlow]]; SActivate 2;
+                   SAwait [[AFlow; AFlow; AAction]];
+                   SWhen [([MAction], [SReturn]); ([MEvent; MAction; MFlow], [SAbort])] (Some [SWhile [SContinue]])]) = true.
 Proof. vm_compute. reflexivity. Qed.
